@@ -4,6 +4,7 @@ import Csproto.Bridge.WireFuncs
 import Csproto.Bridge.WireFuncs2
 import Csproto.Bridge.DecoderFuncs
 import Csproto.Bridge.EncoderFuncs
+import Csproto.Bridge.PackedEncFuncs
 import Csproto.Props.C01Source
 /- axiom audit for C01: parsed by ./check; every line must list only propext / Classical.choice / Quot.sound -/
 open Csproto
@@ -86,3 +87,8 @@ open Csproto
 #print axioms Csproto.Bridge.DecoderFuncs.DecodeBool_refines
 #print axioms Csproto.Bridge.DecoderFuncs.More_refines
 #print axioms Csproto.Bridge.EncoderFuncs.EncodeBool_refines
+
+-- a packed WRITER of the current encoder.go (two range loops) refines Enc.step (.packedVarint tag vs)
+#print axioms Csproto.Bridge.PackedEncFuncs.sizes_loop
+#print axioms Csproto.Bridge.PackedEncFuncs.write_loop
+#print axioms Csproto.Bridge.PackedEncFuncs.EncodePackedUInt64_refines
